@@ -14,7 +14,8 @@ import (
 // candidates WITH THEIR STATE, configuration; subscribers are the two stored contracts; a pending ballot
 // refuses the upgrade and nothing changes.
 // param 0: layout era (0: < 0.16, 1: [0.16, 0.17), 2: [0.17, 0.19)); param 1: notary flag (0 absent,
-// 1 false, 2 true with no ballots, 3 true with a stale ballot, 4 true with a pending ballot).
+// 1 false, 2 true with no ballots, 3 true with a stale ballot, 4 true with a pending ballot, 5 true with a
+// ballot whose last vote is a SYMBOLIC 15..25 blocks before the block of the update: pending iff <= 20).
 func VerifC16MigrateNetmap() {
 	era, notary := vParam(0), vParam(1)
 	v := vInt("deployedVersion")
@@ -75,11 +76,23 @@ func VerifC16MigrateNetmap() {
 			vPreset("netmap", []byte("notary"), true)
 			vPreset("netmap", []byte("ballots"), vSerialize([]common.Ballot{{ID: []byte("id"), Voters: nil, Height: 1 << 30}}))
 			pending = true
+		case 5: // the ballots item is the last preset: it lands one block above vHeight(), the update two above,
+			// where ledger.CurrentIndex() (the latest stored block) is vHeight()+1
+			vPreset("netmap", []byte("notary"), true)
+			age := vInt("blocksSinceTheLastVote")
+			vAssume(age >= 15 && age <= 25)
+			vPreset("netmap", []byte("ballots"), vSerialize([]common.Ballot{{ID: []byte("id"), Voters: nil, Height: vHeight() + 1 - age}}))
+			pending = age <= 20
 		}
 	}
 
 	done, _ := vUpdateFromPreset("netmap", v)
 	vAssert(done == !pending, "C16/legacy-netmap-upgrade-completes-unless-a-vote-is-pending")
+	if notary == 5 {
+		age := vInt("blocksSinceTheLastVote")
+		vCoverIf(!done && age == 20, "vote-exactly-20-blocks-old-refuses-the-upgrade")
+		vCoverIf(done && age == 21, "vote-21-blocks-old-lets-the-upgrade-through")
+	}
 	if pending {
 		vCoverIf(!done, "pending-ballot-refuses-the-upgrade")
 		return
